@@ -62,7 +62,7 @@ Proof.
   rewrite ix_w1 in Hw1 by exact Hl1. injection Hw1 as <- <- <-.
   (* the responder processes message 1 *)
   destruct (process _ _) as [mR1 [|[pk2|] [rR'|]]] eqn:HpR in Hrun; try discriminate.
-  apply process_done in HpR. destruct HpR as (hsr & msg & keys0 & m2 & _ & Hrd & Hpp & Hfin).
+  apply process_done in HpR. destruct HpR as (hsr & msg & keys0 & m2 & _ & _ & Hrd & Hpp & Hfin).
   cbn [m_hs pk_body] in Hrd. rewrite ix_r1 in Hrd by exact Hl1. injection Hrd as <- <- <-.
   rewrite peer_flags_1 in Hpp by reflexivity. cbn [fst snd] in Hpp.
   apply process_payload_ok in Hpp. destruct Hpp as (p & rs & v' & Hmsg & Hrs & Hnz & Hacc & ->).
@@ -81,7 +81,7 @@ Proof.
   (* the initiator processes message 2 *)
   destruct (process _ _) as [mI2 [|[pk3|] [rI'|]]] eqn:HpI in Hrun; try discriminate.
   injection Hrun as <- <- <- <-.
-  apply process_done in HpI. destruct HpI as (hsi & msgi & keysi & mi2 & _ & Hrd & Hpp & Hfin).
+  apply process_done in HpI. destruct HpI as (hsi & msgi & keysi & mi2 & _ & _ & Hrd & Hpp & Hfin).
   cbn [m_hs set_hs pk_body] in Hrd. rewrite ix_r2 in Hrd by assumption. injection Hrd as <- <- <-.
   destruct Hfin as [(cs3 & cs4 & Hk & _ & _ & _ & Hcomp)|(m3 & pkt & cs3 & cs4 & Hk & _)]; [|discriminate Hk].
   injection Hk as <- <-.
